@@ -14,7 +14,7 @@ Specification (all verdict-relevant knowledge is TLA+; this file renders cases, 
                        pages the PCLATH bits could select but the device lacks: convention zone as in IsaPic16).
                        Case space per device: {CALL, GOTO} x statement address (every page x offsets 0, 1, interior, the last
                        words of the page) x target (every page x offsets 0, 1, interior, 2046, 2047; the statement and its
-                       neighbours; 13-19 targets beyond the device): 16C877 1,608 cases, 16C873 696.
+                       neighbours; 13-19 targets beyond the device): 16C877 1,608 cases (696 cross-page), 16C873 684 (244 cross-page).
                        (The single-word forms of the devices - everything but cross-page jumps - run through the normal
                        IsaPic16_Gen / _Hist / adjacency pipeline of c14.py: TLA+ Cpu constants 16C64 16C873 16C874 16C876 16C877
                        next to 16C84; spec/IsaPic16.tla.)
@@ -36,7 +36,7 @@ Specification (all verdict-relevant knowledge is TLA+; this file renders cases, 
                        bit > 7: error and no word); also the packed operand `addr.bit` written directly, and the two-operand
                        form with a typed address symbol.  History model like IsaAlias (Define packs (space, address, bit) into
                        one integer, the use unpacks; Denotes reads the meaning off the text; SymMeaning, BitTransparent,
-                       FarIsError).  quick: 2,076 statements (ATMEGA128, BIT spelling rotating), thorough: 2,908 per device.
+                       FarIsError).  quick: 2,204 statements (ATMEGA128, BIT spelling rotating), thorough: 2,908 per device (4 devices).
   VARIANT dimension of the tables themselves (c14.py ISAS): PIC16C8x 6 devices (above), AVR + AT90S2313 (classic core, 1 K
                        words, 128 bytes SRAM) and ATMEGA16 (enhanced core, 8 K words: JMP / CALL range 0..8191, no ELPM),
                        MSP430X for the MSP430 base set (thorough tier).
@@ -50,7 +50,14 @@ with sym 0 or 1 bytes behind the first extension word rejected) and a third (ae3
 0x18` rejected) showed that the src = dst emulated instructions and BIT symbols were not generated at all.  Each fix reverted in
 a scratch worktree is now reported by this phase (see c14.py docstring "Extension isavar" for the counts).
 
-Finding on the unchanged tree: see known_findings/C14.json (C14-msp430-rla-symbolic-wrap) and proposed_fixes/.
+Finding on the unchanged tree: `rla sym` / `rlc sym` with a source displacement of 8000h / 8001h rejected ('distance too big') although
+`add sym,sym` assembles: known_findings/C14.json C14-msp430-rla-symbolic-wrap-8000 / -8001 ("known"; must flip to "fixed" when
+proposed_fixes/C14-msp430-rla-symbolic-wrap.diff is applied), note in proposed_fixes/C14-msp430-rla-symbolic-wrap.md.
+Binding of the models: JumpSeq with BSF for every differing bit -> TLC: Reaches violated; Pack truncated to 16 bits -> SymMeaning
+violated; destination displacement not re-based on the second extension word -> SrcIsDst violated.
+Open gaps: thorough tier of the added variants was exercised piecewise only (AT90S2313 / ATMEGA16 / MSP430X:sample with K = 8 and
+all register-symbol scenarios: no violation), not as one full `--tier thorough` run; PIC16C5x (code16c5x.c, same automatism with
+the STATUS PA bits) is outside the property's CPU list; RLAX / RLCX and the 430X address space above 64 K are not modelled.
 """
 import os
 
